@@ -241,7 +241,7 @@ def check_replaced_file(ctx, count):
 
 
 def run(ctx):
-    n = 8 if ctx.thorough else 1
+    n = 16 if ctx.thorough else 1
     check_replaced_file(ctx, 25 * n)
     check_fai_text(ctx, 150 * n)
     check_wellformed(ctx, "wellformed", [gen_wellformed(ctx.rng) for _ in range(500 * n)])
